@@ -37,7 +37,7 @@ def find_adapters(F):
             b = f.built
             if f.kind != "assoc" or b.arg_count != 2 or "usize" not in str(b.locals[2]["ty"]) or not str(b.locals[0]["ty"]).startswith("std::option::Option<"):
                 continue
-            repl = [t for _, t in b.calls(r"^std::mem::replace$|Option::<.*>::replace$") if t["args"] and mentions_field(b.expr_of_op(t["args"][0]), a.param)]
+            repl = [t for _, t in b.calls(r"^std::mem::(replace|swap|take)$|Option::<.*>::(replace|insert)$") if t["args"] and mentions_field(b.expr_of_op(t["args"][0]), a.param)]
             wr = [s_ for _, s_ in b.iter_stmts() if s_["k"] == "assign" and last_field(s_["place"]) == a.param]
             if repl or wr:
                 a.update = f
